@@ -31,6 +31,40 @@ def run(tier, replay=None):
     else:
         cases = graph_cases(r, tier, 2000 if tier == "quick" else 25000, 16 if tier == "quick" else 45,
                             small_exhaustive=4 if tier == "quick" else 5, styles=("unit",))
+        # several independently unravelling pieces: unions of 3-6 small blobs (cycles with chords and pendant trees, thetas,
+        # cacti, small dense blobs, bare trees, isolated vertices) — clean-ups of different pieces interleave in the worklist
+        for i in range(400 if tier == "quick" else 4000):
+            parts = []
+            for _ in range(r.randint(3, 6)):
+                t = r.choice(["cycle", "theta", "cactus", "dense", "tree", "iso", "cyc+tails"])
+                if t == "cycle": k = r.randint(3, 6); parts.append((k, cycle(k)))
+                elif t == "theta": E, k = theta(r.randint(0, 2), r.randint(1, 3), r.randint(1, 3)); parts.append((k, E))
+                elif t == "cactus": E, k = cactus(r, r.randint(1, 3)); parts.append((k, E))
+                elif t == "dense": k = r.randint(4, 6); parts.append((k, gnp(r, k, 0.7)))
+                elif t == "tree": k = r.randint(1, 5); parts.append((k, random_tree(r, k)))
+                elif t == "iso": parts.append((1, []))
+                else:
+                    k = r.randint(3, 5); E = cycle(k); nn = k
+                    for _ in range(r.randint(1, 4)): E = E + [(r.randrange(nn), nn)]; nn += 1
+                    parts.append((nn, E))
+            nn, E = disjoint_union(parts)
+            E = [tuple(e) for e in E]
+            if r.random() < .8: nn, E = shuffle_graph(r, nn, E)
+            cases["mp%d" % i] = (nn, [(u, v, 1) for (u, v) in E], 0, "multi-piece")
+        # a small 2-core next to about as many non-trivial tree components as the core has vertices (counters that count
+        # worklist pops instead of removed vertices come out at 0 exactly there), with and without isolated vertices
+        for i in range(90 if tier == "quick" else 600):
+            core = r.choice([cycle(3), cycle(4), cycle(5), cycle(3) + [(0, 3), (3, 4), (4, 0)], theta(1, 1, 2)[0]])
+            cn = nverts(core)
+            parts = [(cn, core)]
+            for _ in range(max(0, cn + r.choice([-1, 0, 0, 0, 1]))):
+                k = r.randint(2, 4); parts.append((k, random_tree(r, k)))
+            for _ in range(r.randint(0, 2)): parts.append((1, []))
+            r.shuffle(parts)
+            nn, E = disjoint_union(parts)
+            E = [tuple(e) for e in E]
+            if r.random() < .7: nn, E = shuffle_graph(r, nn, E)
+            cases["ct%d" % i] = (nn, [(u, v, 1) for (u, v) in E], 0, "core+trees")
     rc, out, err = run_graph_kind(binary, "fvs", cases)
     if rc != 0:
         res.violation("harness crashed / sanitizer report", {"kind": "crash", "stderr": err[-3000:]})
